@@ -245,6 +245,10 @@ type c13TwinCase struct {
 
 // traceOf runs a case and returns, per executed step index (of the case's ops),
 // the normalised reply, plus the final observables. Stops at a violation-free end.
+// pendingAtInjection: a failed request had left changes undelivered when the
+// injected update arrived (its revert pushes them: the C05 finding, not C13's)
+var pendingAtInjection bool
+
 func traceOf(c *hcCase, skip int) (steps map[int]string, final map[string]string, accepted bool, rejErr error, err error) {
 	steps = map[int]string{}
 	dir := vhNewStateDir()
@@ -258,6 +262,9 @@ func traceOf(c *hcCase, skip int) (steps map[int]string, final map[string]string
 	for i, op := range c.Ops {
 		if i == skip {
 			continue
+		}
+		if op.Kind == "reconfig" && op.A == -13 {
+			pendingAtInjection = e.failedPending || len(e.h.m.cache.GetPendingContainers()) > 0
 		}
 		r := e.exec(op)
 		if r.Noop {
@@ -325,6 +332,13 @@ func c13TwinCheck(tc *c13TwinCase, st *vfkit.Stats) (v *vfkit.Violation, labels 
 	_ = rejErr
 	labels = append(labels, "rejected:"+tc.Kind)
 	nt = true
+	kindSig := tc.Kind
+	if pendingAtInjection {
+		// the revert to the configuration in effect pushes what an earlier failed
+		// request had left undelivered: that difference is the C05 finding's
+		kindSig = "after-failed-request"
+		labels = append(labels, "undelivered-changes-at-injection")
+	}
 	for i := range tc.Case.Ops {
 		idx := i
 		if i >= tc.Pos {
@@ -335,13 +349,13 @@ func c13TwinCheck(tc *c13TwinCase, st *vfkit.Stats) (v *vfkit.Violation, labels 
 		}
 		if as[idx] != b1[idx] {
 			return viol(c13, "a rejected update leaves all subsequent allocation decisions identical to never having received it",
-				"subsequent-decisions-differ:"+tc.Case.Policy+":"+tc.Kind,
+				"subsequent-decisions-differ:"+tc.Case.Policy+":"+kindSig,
 				"step %d after the rejected update: with it %q, without it %q", idx, as[idx], b1[idx]), labels, nt
 		}
 	}
 	if d := diffMaps(f1, fa); len(d) > 0 {
 		return viol(c13, "a rejected update leaves assignments and advertised capacities identical to never having received it",
-			"final-state-differs:"+tc.Case.Policy+":"+tc.Kind, "%v", d), labels, nt
+			"final-state-differs:"+tc.Case.Policy+":"+kindSig, "%v", d), labels, nt
 	}
 	return nil, labels, nt
 }
